@@ -37,7 +37,7 @@ CORRUPT = {
 RULE = ("cases = every maximal schedule over {construction with the units' own / the consist constructor's / the simulation's "
         "interval, re-listed units + re-applied interval, set_save_interval(None|1|2|3), initial save, step, failing step} reached by TLC "
         "in the bounded History configs (x consist make-up), each run against LocomotiveSimulation, ConsistSimulation, "
-        "SetSpeedTrainSim and SpeedLimitTrainSim, + seeded whole runs through walk()/walk_timed_path() with random consist, "
+        "SetSpeedTrainSim, SpeedLimitTrainSim and a SpeedLimitTrainSimVec of two simulations (interval set through the vector), + seeded whole runs through walk()/walk_timed_path() with random consist, "
         "interval (None..10), length and failing step; distinct = distinct case descriptors (sha256); non-trivial = a "
         "non-None interval occurs and at least one step is attempted")
 
@@ -57,10 +57,13 @@ GROUP = dict(
     name="history", bin="avh_history",
     model_spec="MCHistory.tla", trace_spec="HistoryTrace.tla", trace_cfg="HistoryTrace.cfg",
     models={
-        "quick": [dict(cfg="MCHistory_quick.cfg", emit=True, max_emit=1500, workers=8, timeout=120),
-                  dict(cfg="MCHistory_kinds.cfg", emit=False, workers=8, timeout=120)],
-        "thorough": [dict(cfg="MCHistory_thorough.cfg", emit=True, max_emit=25000, workers=8, timeout=900),
-                     dict(cfg="MCHistory_thoroughK.cfg", emit=False, workers=8, timeout=900)],
+        "quick": [dict(cfg="MCHistory_quick.cfg", emit=True, max_emit=1100, workers=8, timeout=300),
+                  # construction intervals (units' own / Consist::new's / simulation's) and re-listed units, short schedules
+                  dict(cfg="MCHistory_cons.cfg", emit=True, max_emit=500, workers=8, timeout=300),
+                  dict(cfg="MCHistory_kinds.cfg", emit=False, workers=8, timeout=300)],
+        "thorough": [dict(cfg="MCHistory_thorough.cfg", emit=True, max_emit=20000, workers=8, timeout=1800),
+                     dict(cfg="MCHistory_consT.cfg", emit=True, max_emit=6000, workers=8, timeout=1800),
+                     dict(cfg="MCHistory_thoroughK.cfg", emit=False, workers=8, timeout=1800)],
     },
     gen_n={"quick": 150, "thorough": 2000},
     per_case_ms=20000,
